@@ -14,6 +14,7 @@ import (
 	"fmt"
 	"math/rand"
 	"os"
+	"strings"
 
 	"github.com/mosaicnetworks/babble/src/crypto/keys"
 	hg "github.com/mosaicnetworks/babble/src/hashgraph"
@@ -66,8 +67,17 @@ func main() {
 		privs = append(privs, k)
 		prs = append(prs, peers.NewPeer(keys.PublicKeyHex(&k.PublicKey), "", ""))
 	}
+	// the decision sets are grown one join at a time (WithNewPeer), with the thresholds of
+	// every intermediate set queried first, as the live validator set of a node is
+	var grown *peers.PeerSet
 	for n := 1; n <= *maxDec; n++ {
-		ps := peers.NewPeerSet(append([]*peers.Peer{}, prs[:n]...))
+		if grown == nil {
+			grown = peers.NewPeerSet(append([]*peers.Peer{}, prs[:1]...))
+		} else {
+			grown = grown.WithNewPeer(prs[n-1])
+		}
+		ps := grown
+		fmt.Fprintf(w, "Q %d %d %d %d\n", ps.Len(), len(ps.Peers), ps.SuperMajority(), ps.TrustCount())
 		store := hg.NewInmemStore(100)
 		h := hg.NewHashgraph(store, hg.DummyInternalCommitCallback, quietLogger())
 		if err := h.Init(ps); err != nil {
@@ -98,6 +108,12 @@ func main() {
 		}
 	}
 
+	// shrinking chain: remove one validator at a time, querying thresholds at every size
+	for n := *maxDec; n >= 2 && grown != nil; n-- {
+		grown = grown.WithRemovedPeer(prs[n-1])
+		fmt.Fprintf(w, "Q %d %d %d %d\n", grown.Len(), len(grown.Peers), grown.SuperMajority(), grown.TrustCount())
+	}
+
 	// O: add/remove sequences over a small repertoire (ids collide on purpose: id = key mod 7
 	// cannot be forced on real peers, so ids are the real FNV ids; the model receives them).
 	rng := rand.New(rand.NewSource(*seed))
@@ -105,6 +121,8 @@ func main() {
 	if len(rep) > 9 {
 		rep = rep[:9]
 	}
+	var tbuf strings.Builder
+	tw := &tbuf
 	for s := 0; s < *nops; s++ {
 		ps := peers.NewPeerSet([]*peers.Peer{})
 		fmt.Fprintf(w, "O")
@@ -120,6 +138,8 @@ func main() {
 				ps = ps.WithNewPeer(p)
 				fmt.Fprintf(w, " A %d %d", p.ID(), pi)
 			}
+			// thresholds of every intermediate set (also populates the cached values)
+			fmt.Fprintf(tw, "Q %d %d %d %d\n", ps.Len(), len(ps.Peers), ps.SuperMajority(), ps.TrustCount())
 		}
 		fmt.Fprintf(w, " =>")
 		for _, p := range ps.Peers {
@@ -131,6 +151,7 @@ func main() {
 		}
 		fmt.Fprintf(w, " ; %d %d %d\n", ps.Len(), ps.SuperMajority(), ps.TrustCount())
 	}
+	fmt.Fprint(w, tbuf.String())
 }
 
 func b2i(b bool) int {
